@@ -655,7 +655,7 @@ func c02Reps(c *Ctx) {
 
 func runC02(c *Ctx) {
 	c.Level = "exploration"
-	c.Rule = "every labelled graph on n vertices through CanonicalIsomorphFull(g, nil): generators are automorphisms, generate a group of order |Aut(g)| (= n!/|isomorphism class|, from an explicit orbit sweep; brute force for n <= 6) whose orbits are the returned partition; every isomorphism class on 8 vertices under 36 relabellings (generators are automorphisms, orbits are those of the generated group, group order constant over relabellings and equal to brute force in thorough); every sequence of graphs through one reused storage/partition pair compared with fresh calls; every (graph, ordered vertex-class partition) pair against brute-force class-preserving automorphisms and invariance under the generators of S_n; non-trivial = |Aut| > 1, reuse sequence with differing sizes, or class pair"
+	c.Rule = "every labelled graph on n vertices through CanonicalIsomorphFull(g, nil): generators are automorphisms, generate a group of order |Aut(g)| (= n!/|isomorphism class|, from an explicit orbit sweep; brute force for n <= 6) whose orbits are the returned partition; every isomorphism class on 8 vertices under 36 relabellings (generators are automorphisms, orbits are those of the generated group, group order constant over relabellings and equal to brute force in thorough); trees with 13-40 vertices (80 thorough) against the AHU orbit partition and |Aut| product formula; every sequence of graphs through one reused storage/partition pair compared with fresh calls; every (graph, ordered vertex-class partition) pair against brute-force class-preserving automorphisms and invariance under the generators of S_n; non-trivial = |Aut| > 1, reuse sequence with differing sizes, or class pair"
 	maxNil, maxCls := 6, 5
 	if c.Thorough() {
 		maxNil, maxCls = 7, 6
@@ -671,6 +671,7 @@ func runC02(c *Ctx) {
 		c02Reuse(c, 4, 4, 3, false, 2)
 	}
 	c02Reps(c)
+	c02Trees(c)
 	c02Classes(c, maxCls)
 	c.Sample("nil-classes", autCase{N: 6, Mask: 0x4c31, G6: g6(6, 0x4c31)})
 	c.Assume("vertex classes are passed as lists covering every vertex exactly once; class lists in ascending or descending order")
@@ -687,6 +688,10 @@ func replayC02(kind string, raw json.RawMessage) *Failure {
 			return checkAut(ac, allPerms(ac.N))
 		}
 		return checkAutBySize(ac)
+	case "tree-aut":
+		var tc treeCase
+		json.Unmarshal(raw, &tc)
+		return evalTreeAut(tc)
 	case "aut-consistency":
 		var ac autCase
 		if err := json.Unmarshal(raw, &ac); err != nil {
